@@ -339,13 +339,115 @@ theorem setVal_rel {N : Nat} {h : Nat → Nat} {t : Table} {m : FinMap.M} (R : R
       rw [htm] at hli; rw [hky]
       exact R.none k hk i hi hli
 
-theorem get?_getOrCreate (m : FinMap.M) (key : Nat) (d : Int) (k : Nat) :
-    FinMap.get? (FinMap.insert (FinMap.getOrCreate m key d).1 key v) k = FinMap.get? (FinMap.insert m key v) k := by
-  simp only [FinMap.getOrCreate]
-  cases hg : FinMap.get? m key with
-  | some w => rfl
-  | none =>
-    simp only [FinMap.get?_insert]
-    by_cases hk : key = k <;> simp [hk]
+theorem insert_rel {N : Nat} {h : Nat → Nat} {t : Table} {m : FinMap.M} (R : Rel N h t m) (hh : ∀ k, h k < N)
+    (key : Nat) (v : Int) (hdom : FinMap.contains m key = true ∨ FinMap.len m + 1 < N) :
+    ∃ t', insert N h t key v = some t' ∧ Rel N h t' (FinMap.insert m key v) := by
+  obtain ⟨t', p, hgm, R', _, hpN, hlp, hkp⟩ := getMut_rel R hh key hdom
+  refine ⟨setVal t' p v, by simp [insert, hgm], ?_⟩
+  have := setVal_rel R' p key v hpN hlp hkp
+  rwa [FinMap.insert_getOrCreate] at this
+
+/-! ### clear, new, the generation hook -/
+
+theorem rel_empty {N : Nat} {h : Nat → Nat} {t : Table} (I : Inv N h t) (hl : t.length = 0)
+    (hdead : ∀ i, i < N → tmOf t i ≠ t.ts) : Rel N h t FinMap.clear :=
+  ⟨I, FinMap.noDup_clear, by rw [hl]; rfl, fun k v hk => by simp [FinMap.clear, FinMap.get?] at hk,
+   fun k _ i hi hli => absurd hli (hdead i hi)⟩
+
+theorem clear_spec {N : Nat} {h : Nat → Nat} {t : Table} (I : Inv N h t) (hN : 0 < N) :
+    Inv N h (clear N t) ∧ (clear N t).length = 0 ∧ (∀ i, i < N → tmOf (clear N t) i ≠ (clear N t).ts) := by
+  have hts := I.inv.tsLe
+  obtain ⟨c1, c2, c3⟩ := InvF_clear I.inv hN
+  by_cases h0 : t.ts = u32Max
+  · -- wrap to generation 0: fresh cells
+    have e : clear N t = { cells := Array.replicate N default, ts := 0, length := 0 } := by
+      simp [clear, h0, u32Max]
+    rw [e]
+    have htm : tmOf { cells := Array.replicate N (default : Cell), ts := 0, length := 0 } = fun _ => u32Max := by
+      funext j; show (gt (Array.replicate N (default : Cell)) j).time = _; rw [gt_replicate N default rfl]; rfl
+    refine ⟨⟨by simp, ?_⟩, rfl, ?_⟩
+    · rw [htm]; exact c3 h0 _
+    · intro i _; rw [htm]; simp [u32Max]
+  · have hlt : t.ts + 1 < 4294967296 := by simp only [u32Max] at hts h0; omega
+    have hmod : (t.ts + 1) % 4294967296 = t.ts + 1 := Nat.mod_eq_of_lt hlt
+    by_cases h1 : t.ts + 1 = u32Max
+    · -- restamp at u32::MAX
+      have e : clear N t = { cells := t.cells.map (fun c => { c with time := 0 }), ts := u32Max, length := 0 } := by
+        simp only [clear, hmod]
+        rw [if_neg (by omega), if_pos h1, h1]
+      rw [e]
+      have hsz : (t.cells.map (fun c : Cell => { c with time := 0 })).size = N := by simp [I.size]
+      have htm : ∀ i, i < N → tmOf { cells := t.cells.map (fun c : Cell => { c with time := 0 }), ts := u32Max, length := 0 } i = 0 := by
+        intro i hi
+        show (gt (t.cells.map (fun c : Cell => { c with time := 0 })) i).time = 0
+        rw [gt_map_lt _ _ _ (by rw [I.size]; exact hi)]
+      have hky : ∀ i, i < N → kyOf { cells := t.cells.map (fun c : Cell => { c with time := 0 }), ts := u32Max, length := 0 } i = kyOf t i := by
+        intro i hi
+        show (gt (t.cells.map (fun c : Cell => { c with time := 0 })) i).key = _
+        rw [gt_map_lt _ _ _ (by rw [I.size]; exact hi)]; rfl
+      refine ⟨⟨hsz, ?_⟩, rfl, ?_⟩
+      · apply InvF_empty N h _ _ u32Max hN (Nat.le_refl _)
+        · intro i hi; rw [htm i hi]; simp [u32Max]
+        · intro i hi; left; rw [htm i hi]; simp
+      · intro i hi; rw [htm i hi]; simp [u32Max]
+    · have e : clear N t = { cells := t.cells, ts := t.ts + 1, length := 0 } := by
+        simp only [clear, hmod]
+        rw [if_neg (by omega), if_neg h1]
+      rw [e]
+      have hlt2 : t.ts + 1 < u32Max := by simp only [u32Max] at hts h0 h1 ⊢; omega
+      refine ⟨⟨I.size, c1 hlt2⟩, rfl, ?_⟩
+      intro i hi
+      show tmOf t i ≠ t.ts + 1
+      rcases I.inv.hygiene i hi with hh | hh <;> omega
+
+theorem clear_rel {N : Nat} {h : Nat → Nat} {t : Table} {m : FinMap.M} (R : Rel N h t m) (hN : 0 < N) :
+    Rel N h (clear N t) FinMap.clear := by
+  obtain ⟨hI, hl, hdead⟩ := clear_spec R.inv hN
+  exact rel_empty hI hl hdead
+
+theorem init_rel (N : Nat) (h : Nat → Nat) (hN : 0 < N) : Rel N h (init N) FinMap.clear := by
+  have htm : tmOf (init N) = fun _ => u32Max := by
+    funext j; show (gt (Array.replicate N (default : Cell)) j).time = _; rw [gt_replicate N default rfl]; rfl
+  apply rel_empty
+  · refine ⟨by simp [init], ?_⟩
+    rw [htm]
+    apply InvF_empty N h _ _ 0 hN (by simp [u32Max])
+    · intro i _; simp [u32Max]
+    · intro i _; right; rfl
+  · rfl
+  · intro i _; rw [htm]; simp [init, u32Max]
+
+theorem setGeneration_rel {N : Nat} {h : Nat → Nat} {t : Table} {m : FinMap.M} (R : Rel N h t m) (hN : 0 < N)
+    (g : Nat) (hg : g ≤ u32Max) (hm : FinMap.len m = 0) :
+    ∃ t', setGeneration N t g = some t' ∧ t'.ts = g ∧ Rel N h t' FinMap.clear := by
+  have hl : t.length = 0 := by rw [R.len]; exact hm
+  by_cases hgm : g = u32Max
+  · subst hgm
+    refine ⟨{ cells := (Array.replicate N (default : Cell)).map (fun c : Cell => { c with time := 0 }), ts := u32Max, length := 0 },
+      by simp only [setGeneration, hl, ↓reduceIte], rfl, ?_⟩
+    have hsz : ((Array.replicate N (default : Cell)).map (fun c : Cell => { c with time := 0 })).size = N := by simp
+    have htm : ∀ i, i < N → tmOf { cells := (Array.replicate N (default : Cell)).map (fun c : Cell => { c with time := 0 }), ts := u32Max, length := 0 } i = 0 := by
+      intro i hi
+      show (gt ((Array.replicate N (default : Cell)).map (fun c : Cell => { c with time := 0 })) i).time = 0
+      rw [gt_map_lt _ _ _ (by simpa using hi)]
+    apply rel_empty
+    · refine ⟨hsz, ?_⟩
+      apply InvF_empty N h _ _ u32Max hN (Nat.le_refl _)
+      · intro i hi; rw [htm i hi]; simp [u32Max]
+      · intro i hi; left; rw [htm i hi]; simp
+    · rfl
+    · intro i hi; rw [htm i hi]; simp [u32Max]
+  · refine ⟨{ cells := Array.replicate N (default : Cell), ts := g, length := 0 },
+      by simp only [setGeneration, hl, hgm, ↓reduceIte], rfl, ?_⟩
+    have htm : tmOf { cells := Array.replicate N (default : Cell), ts := g, length := 0 } = fun _ => u32Max := by
+      funext j; show (gt (Array.replicate N (default : Cell)) j).time = _; rw [gt_replicate N default rfl]; rfl
+    apply rel_empty
+    · refine ⟨by simp, ?_⟩
+      rw [htm]
+      apply InvF_empty N h _ _ g hN hg
+      · intro i _; exact fun e => hgm e.symm
+      · intro i _; right; rfl
+    · rfl
+    · intro i _; rw [htm]; exact fun e => hgm e.symm
 
 end Tbx.HashTable
